@@ -12,7 +12,7 @@
 EXTENDS Contract, Textbook, Json, IOUtils
 CONSTANT Active
 Traces == JsonDeserialize(IOEnv.TRACE_FILE)
-VARIABLES tid, l, verdict
+VARIABLES tid, l, verdict, want
 T == Traces[tid]
 n(TT) == Len(TT.vals)
 \* the prescribed placement sequence << [id, bin] >>
@@ -37,16 +37,15 @@ CoverSeq(alg, vals, C) == LET bins == CoverFull(alg, vals, C)
                           IN Flatten([j \in 1..Len(bins) |-> [t \in 1..Len(bins[j]) |-> [id |-> bins[j][t], bin |-> j]]])
 Expected(TT) == IF TT.alg \in {"greedy", "roundrobin"} THEN PartSeq(TT.alg, TT.vals, TT.k)
                 ELSE IF TT.alg \in {"ff", "ffd", "bf", "bfd"} THEN FitSeq(TT.alg, TT.vals, TT.C) ELSE CoverSeq(TT.alg, TT.vals, TT.C)
-Init == tid \in 1..Len(Traces) /\ l = 1 /\ verdict = <<>>
+Init == tid \in 1..Len(Traces) /\ l = 1 /\ verdict = <<>> /\ want = Expected(Traces[tid])
 Step == /\ verdict = <<>> /\ l <= Len(T.adds)
-        /\ LET want == Expected(T)
-           IN IF l <= Len(want) /\ T.adds[l].id = want[l].id /\ T.adds[l].bin = want[l].bin THEN l' = l + 1 /\ UNCHANGED verdict
-              ELSE verdict' = << [e |-> l, c |-> "DRIFT.heur." \o T.alg \o ".placement_differs_from_the_rule"] >> /\ UNCHANGED l
-        /\ UNCHANGED tid
+        /\ IF l <= Len(want) /\ T.adds[l].id = want[l].id /\ T.adds[l].bin = want[l].bin THEN l' = l + 1 /\ UNCHANGED verdict
+           ELSE verdict' = << [e |-> l, c |-> "DRIFT.heur." \o T.alg \o ".placement_differs_from_the_rule"] >> /\ UNCHANGED l
+        /\ UNCHANGED <<tid, want>>
 Finish == /\ (verdict # <<>> \/ l > Len(T.adds)) /\ l < 1000000
           /\ l' = 1000000
           /\ PrintT("@@V " \o ToJson([tid |-> tid, n |-> Len(T.adds),
-                     fails |-> IF verdict = <<>> /\ T.out = "ret" /\ Len(T.adds) # Len(Expected(T)) THEN << [e |-> l, c |-> "DRIFT.heur." \o T.alg \o ".fewer_placements_than_the_rule"] >> ELSE verdict]))
-          /\ UNCHANGED <<tid, verdict>>
+                     fails |-> IF verdict = <<>> /\ T.out = "ret" /\ Len(T.adds) # Len(want) THEN << [e |-> l, c |-> "DRIFT.heur." \o T.alg \o ".fewer_placements_than_the_rule"] >> ELSE verdict]))
+          /\ UNCHANGED <<tid, verdict, want>>
 Next == Step \/ Finish
 =============================================================================
